@@ -148,6 +148,8 @@ def run(chk, args):
     for i, c in enumerate(cases):
         if i % 5 == 3 and "custom_cores" not in c:
             c["custom_cores"] = True       # the caller uses its own name for the core resource
+        if i % 4 == 1 and "oneshot" not in c:
+            c["oneshot"] = True            # hand-chained stages get the constraints as one-shot iterators
     chunks = [cases[i:i + 10] for i in range(0, len(cases), 10)]
     outs = [o for part in chk.impl_parallel("impl_c01.py", chunks, timeout=3000) for o in part]
     ok_cases = []
@@ -160,6 +162,7 @@ def run(chk, args):
         chk.count("stream:" + c.get("stream", "general"))
         chk.count("mode:" + c["mode"])
         chk.count("custom-core-resource:" + str(bool(c.get("custom_cores"))))
+        chk.count("constraints-as-one-shot-iterators:" + str(bool(c.get("oneshot")) and c.get("mode") == "manual"))
         chk.count("placer:" + c["placer"])
         chk.count("status:" + o["status"] + (":" + o["exc"] if o["status"] == "raised" else ""))
         if o["status"] == "raised":
